@@ -30,6 +30,7 @@
 //!  1. join_hash_map.rs `(idx, Some(0)) => idx + 1` → `=> idx`  (finished probe row re-processed)   -> VIOLATION
 //!  2. chain.rs `Some((prob_idx, Some(next.into())))` → always resume with `Some(0)`... see list below
 //!  3. unique fast path without the NULL-key test (`if false && valid_keys…`)                         -> VIOLATION
+use arrow::array::Array;
 use arrow::buffer::NullBuffer;
 use datafusion_physical_plan::joins::join_hash_map::{JoinHashMapType, JoinHashMapU32, JoinHashMapU64};
 use proptest::prelude::*;
